@@ -327,7 +327,10 @@ def omit_prefix(vrs, prefix):
 
 
 def _omit_prefix(s, prefix):
-    if s.startswith(prefix):
+    # only hidden variables are mangled (as `prefix + '_...'`),
+    # so a visible variable whose name starts with
+    # the name of the component remains unchanged
+    if s.startswith(prefix + '_'):
         return s.replace(prefix, '', 1)
     return s
 
